@@ -1,68 +1,277 @@
 import Witverif.Abi.CProfile
-/-! C11: the generated free helpers (model `cFrees`) free exactly the owned buffers; the dtor name. -/
+/-! C11: the generated free helpers (model `cFrees` of `define_dtor`) free exactly the non-empty blocks
+that the independent spec `reachBlocks` (Abi/Validate.lean, shared with C03/C06) finds in the value. -/
 namespace Witverif.Abi.CProfile
 open Witverif.Abi Witverif.Abi.CProfileSpec
 
-theorem freesMany_perm (f g : Nat → List (Nat × Nat)) (h : ∀ x, (f x).Perm (g x)) (sz : Nat) :
-    ∀ (n a : Nat), (freesMany f sz a n).Perm (freesMany g sz a n)
-  | 0, _ => by simp [freesMany]
-  | n + 1, a => by
-      simp only [freesMany]
-      exact (h a).append (freesMany_perm f g h sz n (a + sz))
+/-- non-empty block -/
+def nz (b : Nat × Nat × Nat) : Bool := decide (0 < b.2.1)
+
+/-- addresses freed by the helper / addresses of the non-empty reachable blocks -/
+abbrev A (l : List (Nat × Nat)) : List Nat := l.map (·.1)
+abbrev R (l : List (Nat × Nat × Nat)) : List Nat := (l.filter nz).map (·.1)
+
+theorem R_append (x y : List (Nat × Nat × Nat)) : R (x ++ y) = R x ++ R y := by simp [R]
+theorem A_append (x y : List (Nat × Nat)) : A (x ++ y) = A x ++ A y := by simp [A]
+
+theorem perm_shuffle {α} (a b c d : List α) : ((a ++ b) ++ (c ++ d)).Perm ((a ++ c) ++ (b ++ d)) := by
+  simp only [List.append_assoc]
+  apply List.Perm.append_left
+  rw [← List.append_assoc, ← List.append_assoc]
+  exact List.Perm.append_right _ List.perm_append_comm
 
 theorem freesMany_congr (f g : Nat → List (Nat × Nat)) (h : ∀ x, f x = g x) (sz : Nat) :
     ∀ (n a : Nat), freesMany f sz a n = freesMany g sz a n
   | 0, _ => by simp [freesMany]
   | n + 1, a => by simp only [freesMany, h a, freesMany_congr f g h sz n (a + sz)]
 
+theorem many_perm (F : Nat → List (Nat × Nat)) (G : Nat → List (Nat × Nat × Nat)) (ok : Nat → Bool)
+    (h : ∀ x, ok x = true → (A (F x)).Perm (R (G x))) (sz : Nat) :
+    ∀ (n a : Nat), manyAll ok sz a n = true → (A (freesMany F sz a n)).Perm (R (reachMany G sz a n))
+  | 0, _, _ => by simp [freesMany, reachMany, A, R]
+  | n + 1, a, hok => by
+      simp only [manyAll, Bool.and_eq_true] at hok
+      simp only [freesMany, reachMany, A_append, R_append]
+      exact (h a hok.1).append (many_perm F G ok h sz n (a + sz) hok.2)
+
+/-- map entries: the helper frees key then value per entry, the spec lists all keys then all values -/
+theorem many_perm2 (Fk Fv : Nat → List (Nat × Nat)) (Gk Gv : Nat → List (Nat × Nat × Nat)) (okk okv : Nat → Bool)
+    (hk : ∀ x, okk x = true → (A (Fk x)).Perm (R (Gk x))) (hv : ∀ x, okv x = true → (A (Fv x)).Perm (R (Gv x)))
+    (sz vo : Nat) : ∀ (n a : Nat), manyAll okk sz a n = true → manyAll okv sz (a + vo) n = true →
+      (A (freesMany (fun x => Fk x ++ Fv (x + vo)) sz a n)).Perm
+        (R (reachMany Gk sz a n ++ reachMany Gv sz (a + vo) n))
+  | 0, _, _, _ => by simp [freesMany, reachMany, A, R]
+  | n + 1, a, h1, h2 => by
+      simp only [manyAll, Bool.and_eq_true] at h1 h2
+      have ih := many_perm2 Fk Fv Gk Gv okk okv hk hv sz vo n (a + sz) h1.2
+        (by rw [Nat.add_right_comm]; exact h2.2)
+      simp only [freesMany, reachMany, A_append, R_append] at ih ⊢
+      rw [Nat.add_right_comm a sz vo] at ih
+      exact (((hk a h1.1).append (hv (a + vo) h2.1)).append ih).trans (perm_shuffle _ _ _ _)
+
 variable (p : Nat) (m : Spec.Mem)
 
 mutual
-theorem cFrees_perm : ∀ (t : Ty) (a : Nat), (cFrees p m t a).Perm (ownedBuffers p m t a)
-  | .string, a => by simp [cFrees, ownedBuffers]
-  | .list e, a => by
-      simp only [cFrees, ownedBuffers]
+theorem cFrees_reach : ∀ (t : Ty) (a : Nat), cSupported t = true → elemsPos p t = true → optTagsOk p m t a = true →
+    (A (cFrees p m t a)).Perm (R (reachBlocks false p m t a))
+  | .string, a, _, _, _ => by
+      simp only [cFrees, reachBlocks]
+      by_cases h : m.loadLE (a + p) p > 0 <;> simp [h, A, R, nz]
+  | .list e, a, hs, hp, ho => by
+      simp only [cSupported] at hs
+      simp only [elemsPos, Bool.and_eq_true, decide_eq_true_eq] at hp
+      simp only [optTagsOk] at ho
+      simp only [cFrees, reachBlocks]
+      by_cases h : m.loadLE (a + p) p > 0
+      · have hnz : nz (m.loadLE a p, m.loadLE (a + p) p * elemSize p e, alignment p e) = true := by
+          simp only [nz, decide_eq_true_eq]; exact Nat.mul_pos h hp.1
+        simp only [h, if_true, A_append]
+        have ih := many_perm (cFrees p m e) (reachBlocks false p m e) (optTagsOk p m e)
+          (fun x hx => cFrees_reach e x hs hp.2 hx) (elemSize p e) _ _ ho
+        refine (List.perm_append_singleton _ _).trans ?_
+        simp only [R, List.filter_cons, hnz, if_true, List.map_cons]
+        exact List.Perm.cons _ ih
+      · have h0 : m.loadLE (a + p) p = 0 := by omega
+        simp [h0, reachMany, A, R, nz]
+  | .map k v, a, hs, hp, ho => by
+      simp only [cSupported, Bool.and_eq_true] at hs
+      simp only [elemsPos, Bool.and_eq_true, decide_eq_true_eq] at hp
+      simp only [optTagsOk, Bool.and_eq_true] at ho
+      simp only [cFrees, reachBlocks]
+      by_cases h : m.loadLE (a + p) p > 0
+      · have hnz : nz (m.loadLE a p, m.loadLE (a + p) p * elemSize p (.tuple [k, v]), alignment p (.tuple [k, v])) = true := by
+          simp only [nz, decide_eq_true_eq]; exact Nat.mul_pos h hp.1.1
+        simp only [h, if_true, A_append]
+        have ih := many_perm2 (cFrees p m k) (cFrees p m v) (reachBlocks false p m k) (reachBlocks false p m v)
+          (optTagsOk p m k) (optTagsOk p m v)
+          (fun x hx => cFrees_reach k x hs.1 hp.1.2 hx) (fun x hx => cFrees_reach v x hs.2 hp.2 hx)
+          (elemSize p (.tuple [k, v])) (alignTo (elemSize p k) (alignment p v)) _ _ ho.1 ho.2
+        refine (List.perm_append_singleton _ _).trans ?_
+        simp only [R, List.filter_cons, hnz, if_true, List.map_cons]
+        exact List.Perm.cons _ ih
+      · have h0 : m.loadLE (a + p) p = 0 := by omega
+        simp [h0, reachMany, A, R, nz]
+  | .flist _ _, _, hs, _, _ => by simp [cSupported] at hs
+  | .record fs, a, hs, hp, ho => by
+      simpa [cFrees, reachBlocks] using cFreesFields_reach fs a 0 (by simpa [cSupported] using hs)
+        (by simpa [elemsPos] using hp) (by simpa [optTagsOk] using ho)
+  | .tuple ts, a, hs, hp, ho => by
+      simpa [cFrees, reachBlocks] using cFreesFields_reach ts a 0 (by simpa [cSupported] using hs)
+        (by simpa [elemsPos] using hp) (by simpa [optTagsOk] using ho)
+  | .variant cs, a, hs, hp, ho => by
+      simpa [cFrees, reachBlocks] using cFreesCase_reach cs _ _ (by simpa [cSupported] using hs)
+        (by simpa [elemsPos] using hp) (by simpa [optTagsOk] using ho)
+  | .option t, a, hs, hp, ho => by
+      simp only [cSupported] at hs
+      simp only [elemsPos] at hp
+      simp only [optTagsOk, Bool.or_eq_true, Bool.and_eq_true, beq_iff_eq] at ho
+      simp only [cFrees, reachBlocks]
+      rcases ho with h0 | ⟨h1, hok⟩
+      · simp [h0, A, R]
+      · simp only [h1, bne_iff_ne, ne_eq, Nat.succ_ne_zero, not_false_eq_true, if_true, beq_self_eq_true]
+        exact cFrees_reach t _ hs hp hok
+  | .result ok err, a, hs, hp, ho => by
+      simp only [cSupported, Bool.and_eq_true] at hs
+      simp only [elemsPos, Bool.and_eq_true] at hp
+      simp only [optTagsOk] at ho
+      simp only [cFrees, reachBlocks]
       split
-      · exact List.perm_append_singleton _ _ |>.trans
-          (List.Perm.cons _ (freesMany_perm _ _ (fun x => cFrees_perm e x) _ _ _))
-      · exact List.Perm.refl _
-  | .map k v, a => by
-      simp only [cFrees, ownedBuffers]
-      split
-      · exact List.perm_append_singleton _ _ |>.trans
-          (List.Perm.cons _ (freesMany_perm _ _ (fun x => (cFrees_perm k x).append (cFrees_perm v _)) _ _ _))
-      · exact List.Perm.refl _
-  | .record fs, a => by simpa [cFrees, ownedBuffers] using cFreesFields_perm fs a 0
-  | .tuple ts, a => by simpa [cFrees, ownedBuffers] using cFreesFields_perm ts a 0
-  | .variant cs, a => by simpa [cFrees, ownedBuffers] using cFreesCase_perm cs _ _
-  | .option t, a => by
-      simp only [cFrees, ownedBuffers]
-      split
-      · exact cFrees_perm t _
-      · exact List.Perm.refl _
-  | .result ok err, a => by
-      simp only [cFrees, ownedBuffers]
-      split
-      · exact cFreesOpt_perm ok _
-      · exact cFreesOpt_perm err _
-  | .bool, _ | .s8, _ | .u8, _ | .s16, _ | .u16, _ | .s32, _ | .u32, _ | .s64, _ | .u64, _ | .f32, _ | .f64, _
-  | .char, _ | .errctx, _ | .flist _ _, _ | .flags _, _ | .enum _, _ | .own, _ | .borrow, _ | .future _, _ | .stream _, _ => by
-      simp [cFrees, ownedBuffers]
-theorem cFreesFields_perm : ∀ (ts : List Ty) (a cur : Nat),
-    (cFreesFields p m ts a cur).Perm (ownedBuffersFields p m ts a cur)
-  | [], _, _ => by simp [cFreesFields, ownedBuffersFields]
-  | t :: ts, a, cur => by
-      simp only [cFreesFields, ownedBuffersFields]
-      exact (cFrees_perm t _).append (cFreesFields_perm ts a _)
-theorem cFreesOpt_perm : ∀ (o : Option Ty) (a : Nat), (cFreesOpt p m o a).Perm (ownedBuffersOpt p m o a)
-  | none, _ => by simp [cFreesOpt, ownedBuffersOpt]
-  | some t, a => by simpa [cFreesOpt, ownedBuffersOpt] using cFrees_perm t a
-theorem cFreesCase_perm : ∀ (cs : List (Option Ty)) (i a : Nat),
-    (cFreesCase p m cs i a).Perm (ownedBuffersCase p m cs i a)
-  | [], _, _ => by simp [cFreesCase, ownedBuffersCase]
-  | c :: _, 0, a => by simpa [cFreesCase, ownedBuffersCase] using cFreesOpt_perm c a
-  | _ :: cs, i + 1, a => by simpa [cFreesCase, ownedBuffersCase] using cFreesCase_perm cs i a
+      · rename_i h; simp only [h, if_true] at ho; exact cFreesOpt_reach ok _ hs.1 hp.1 ho
+      · rename_i h; simp only [h] at ho; exact cFreesOpt_reach err _ hs.2 hp.2 ho
+  | .bool, _, _, _, _ | .s8, _, _, _, _ | .u8, _, _, _, _ | .s16, _, _, _, _ | .u16, _, _, _, _ | .s32, _, _, _, _
+  | .u32, _, _, _, _ | .s64, _, _, _, _ | .u64, _, _, _, _ | .f32, _, _, _, _ | .f64, _, _, _, _ | .char, _, _, _, _
+  | .errctx, _, _, _, _ | .flags _, _, _, _, _ | .enum _, _, _, _, _ | .own, _, _, _, _ | .borrow, _, _, _, _
+  | .future _, _, _, _, _ | .stream _, _, _, _, _ => by simp [cFrees, reachBlocks, A, R]
+theorem cFreesFields_reach : ∀ (ts : List Ty) (a cur : Nat), cSupportedAll ts = true → elemsPosAll p ts = true →
+    optTagsOkFields p m ts a cur = true →
+    (A (cFreesFields p m ts a cur)).Perm (R (reachFields false p m ts a cur))
+  | [], _, _, _, _, _ => by simp [cFreesFields, reachFields, A, R]
+  | t :: ts, a, cur, hs, hp, ho => by
+      simp only [cSupportedAll, Bool.and_eq_true] at hs
+      simp only [elemsPosAll, Bool.and_eq_true] at hp
+      simp only [optTagsOkFields, Bool.and_eq_true] at ho
+      simp only [cFreesFields, reachFields, A_append, R_append]
+      exact (cFrees_reach t _ hs.1 hp.1 ho.1).append (cFreesFields_reach ts a _ hs.2 hp.2 ho.2)
+theorem cFreesOpt_reach : ∀ (o : Option Ty) (a : Nat), cSupportedOpt o = true → elemsPosOpt p o = true →
+    optTagsOkOpt p m o a = true → (A (cFreesOpt p m o a)).Perm (R (reachOpt false p m o a))
+  | none, _, _, _, _ => by simp [cFreesOpt, reachOpt, A, R]
+  | some t, a, hs, hp, ho => by
+      simpa [cFreesOpt, reachOpt] using cFrees_reach t a (by simpa [cSupportedOpt] using hs)
+        (by simpa [elemsPosOpt] using hp) (by simpa [optTagsOkOpt] using ho)
+theorem cFreesCase_reach : ∀ (cs : List (Option Ty)) (i a : Nat), cSupportedCases cs = true → elemsPosCases p cs = true →
+    optTagsOkCase p m cs i a = true → (A (cFreesCase p m cs i a)).Perm (R (reachCase false p m cs i a))
+  | [], _, _, _, _, _ => by simp [cFreesCase, reachCase, A, R]
+  | c :: _, 0, a, hs, hp, ho => by
+      simp only [cSupportedCases, Bool.and_eq_true] at hs
+      simp only [elemsPosCases, Bool.and_eq_true] at hp
+      simpa [cFreesCase, reachCase] using cFreesOpt_reach c a hs.1 hp.1 (by simpa [optTagsOkCase] using ho)
+  | _ :: cs, i + 1, a, hs, hp, ho => by
+      simp only [cSupportedCases, Bool.and_eq_true] at hs
+      simp only [elemsPosCases, Bool.and_eq_true] at hp
+      simpa [cFreesCase, reachCase] using cFreesCase_reach cs i a hs.2 hp.2 (by simpa [optTagsOkCase] using ho)
 end
+
+end Witverif.Abi.CProfile
+
+/-! ### values that `Spec.load` accepts have valid option discriminants -/
+namespace Witverif.Abi.CProfile
+open Witverif.Abi Witverif.Abi.CProfileSpec
+
+theorem loadMany_all (f : Nat → Option Val) (ok : Nat → Bool) (h : ∀ x v, f x = some v → ok x = true) (sz : Nat) :
+    ∀ (n a : Nat) (vs : List Val), Spec.loadMany f sz a n = some vs → manyAll ok sz a n = true
+  | 0, _, _, _ => by simp [manyAll]
+  | n + 1, a, vs, hl => by
+      simp only [Spec.loadMany, Option.bind_eq_bind, Option.bind_eq_some_iff] at hl
+      obtain ⟨v, hv, rest, hr, _⟩ := hl
+      simp [manyAll, h a v hv, loadMany_all f ok h sz n (a + sz) rest hr]
+
+theorem loadManyEntries_all (fk fv : Nat → Option Val) (okk okv : Nat → Bool)
+    (hk : ∀ x v, fk x = some v → okk x = true) (hv : ∀ x v, fv x = some v → okv x = true) (vo sz : Nat) :
+    ∀ (n a : Nat) (vs : List Val), Spec.loadManyEntries fk fv vo sz a n = some vs →
+      manyAll okk sz a n = true ∧ manyAll okv sz (a + vo) n = true
+  | 0, _, _, _ => by simp [manyAll]
+  | n + 1, a, vs, hl => by
+      simp only [Spec.loadManyEntries, Option.bind_eq_bind, Option.bind_eq_some_iff] at hl
+      obtain ⟨x, hx, y, hy, rest, hr, _⟩ := hl
+      have ih := loadManyEntries_all fk fv okk okv hk hv vo sz n (a + sz) rest hr
+      rw [Nat.add_right_comm] at ih
+      simp [manyAll, hk a x hx, hv (a + vo) y hy, ih.1, ih.2]
+
+variable (p : Nat) (m : Spec.Mem)
+
+mutual
+theorem load_optTagsOk : ∀ (t : Ty) (a : Nat) (v : Val), Spec.load p m t a = some v → optTagsOk p m t a = true
+  | .list e, a, v, h => by
+      simp only [Spec.load] at h
+      split at h
+      · simp at h
+      · simp only [Option.map_eq_some_iff] at h
+        obtain ⟨vs, hvs, _⟩ := h
+        simp only [optTagsOk]
+        exact loadMany_all _ _ (fun x v hx => load_optTagsOk e x v hx) _ _ _ _ hvs
+  | .map k w, a, v, h => by
+      simp only [Spec.load] at h
+      split at h
+      · simp at h
+      · simp only [Option.map_eq_some_iff] at h
+        obtain ⟨vs, hvs, _⟩ := h
+        have := loadManyEntries_all _ _ (optTagsOk p m k) (optTagsOk p m w)
+          (fun x v hx => load_optTagsOk k x v hx) (fun x v hx => load_optTagsOk w x v hx) _ _ _ _ _ hvs
+        simp [optTagsOk, this.1, this.2]
+  | .record fs, a, v, h => by
+      simp only [Spec.load, Option.map_eq_some_iff] at h
+      obtain ⟨vs, hvs, _⟩ := h
+      simpa [optTagsOk] using loadFields_optTagsOk fs a 0 vs hvs
+  | .tuple ts, a, v, h => by
+      simp only [Spec.load, Option.map_eq_some_iff] at h
+      obtain ⟨vs, hvs, _⟩ := h
+      simpa [optTagsOk] using loadFields_optTagsOk ts a 0 vs hvs
+  | .variant cs, a, v, h => by
+      simp only [Spec.load] at h
+      split at h
+      · simp only [Option.map_eq_some_iff] at h
+        obtain ⟨pv, hpv, _⟩ := h
+        simpa [optTagsOk] using loadCase_optTagsOk cs _ _ pv hpv
+      · simp at h
+  | .option t, a, v, h => by
+      simp only [Spec.load] at h
+      simp only [optTagsOk]
+      split at h
+      · rename_i h0; simp [h0]
+      · rename_i h1
+        simp only [Option.map_eq_some_iff] at h
+        obtain ⟨x, hx, _⟩ := h
+        simp [h1, load_optTagsOk t _ x hx]
+      · simp at h
+  | .result ok err, a, v, h => by
+      simp only [Spec.load] at h
+      simp only [optTagsOk]
+      split at h
+      · rename_i h0
+        simp only [Option.map_eq_some_iff] at h
+        obtain ⟨pv, hpv, _⟩ := h
+        simpa [h0] using loadOpt_optTagsOk ok _ pv hpv
+      · rename_i h1
+        simp only [Option.map_eq_some_iff] at h
+        obtain ⟨pv, hpv, _⟩ := h
+        simpa [h1] using loadOpt_optTagsOk err _ pv hpv
+      · simp at h
+  | .bool, _, _, _ | .s8, _, _, _ | .u8, _, _, _ | .s16, _, _, _ | .u16, _, _, _ | .s32, _, _, _ | .u32, _, _, _
+  | .s64, _, _, _ | .u64, _, _, _ | .f32, _, _, _ | .f64, _, _, _ | .char, _, _, _ | .string, _, _, _ | .errctx, _, _, _
+  | .flist _ _, _, _, _ | .flags _, _, _, _ | .enum _, _, _, _ | .own, _, _, _ | .borrow, _, _, _ | .future _, _, _, _
+  | .stream _, _, _, _ => by simp [optTagsOk]
+theorem loadFields_optTagsOk : ∀ (ts : List Ty) (a cur : Nat) (vs : List Val), Spec.loadFields p m ts a cur = some vs →
+    optTagsOkFields p m ts a cur = true
+  | [], _, _, _, _ => by simp [optTagsOkFields]
+  | t :: ts, a, cur, vs, h => by
+      simp only [Spec.loadFields, Option.bind_eq_bind, Option.bind_eq_some_iff] at h
+      obtain ⟨v, hv, rest, hr, _⟩ := h
+      simp [optTagsOkFields, load_optTagsOk t _ v hv, loadFields_optTagsOk ts a _ rest hr]
+theorem loadOpt_optTagsOk : ∀ (o : Option Ty) (a : Nat) (pv : Option Val), Spec.loadOpt p m o a = some pv →
+    optTagsOkOpt p m o a = true
+  | none, _, _, _ => by simp [optTagsOkOpt]
+  | some t, a, pv, h => by
+      simp only [Spec.loadOpt, Option.map_eq_some_iff] at h
+      obtain ⟨v, hv, _⟩ := h
+      simpa [optTagsOkOpt] using load_optTagsOk t a v hv
+theorem loadCase_optTagsOk : ∀ (cs : List (Option Ty)) (i a : Nat) (pv : Option Val), Spec.loadCase p m cs i a = some pv →
+    optTagsOkCase p m cs i a = true
+  | [], _, _, _, _ => by simp [optTagsOkCase]
+  | c :: _, 0, a, pv, h => by
+      simp only [Spec.loadCase] at h
+      simpa [optTagsOkCase] using loadOpt_optTagsOk c a pv h
+  | _ :: cs, i + 1, a, pv, h => by
+      simp only [Spec.loadCase] at h
+      simpa [optTagsOkCase] using loadCase_optTagsOk cs i a pv h
+end
+
+end Witverif.Abi.CProfile
+
+/-! ### the pre-repair registry agrees with the complete one when no member has a shared anonymous type -/
+namespace Witverif.Abi.CProfile
+open Witverif.Abi Witverif.Abi.CProfileSpec
+
+variable (p : Nat) (m : Spec.Mem)
 
 mutual
 theorem cFreesLate_eq : ∀ (t : Ty) (a : Nat), noSharedMember t = true → cFreesLate p m t a = cFrees p m t a
@@ -118,4 +327,3 @@ theorem cFreesLateCase_eq : ∀ (cs : List (Option Ty)) (i a : Nat), noSharedCas
 end
 
 end Witverif.Abi.CProfile
-
